@@ -3,6 +3,8 @@ package symx
 import (
 	"fmt"
 	"go/types"
+	"strconv"
+	"strings"
 
 	"golang.org/x/tools/go/ssa"
 	"verif/engine/sym"
@@ -57,6 +59,23 @@ func init() {
 		o.Cells[0] = e.tb.Const(64, 0)
 		e.udpSocks[o] = &udpSock{port: 40000 + e.udpNextPort}
 		return Tuple{Ptr{Obj: o}, Iface{}}
+	})
+	// net.ResolveUDPAddr on a concrete "host:port" literal (no name resolution in the model: the host part is taken to be
+	// the loopback address, like every socket of the model)
+	reg("net.ResolveUDPAddr", func(e *Exec, fn *ssa.Function, a []Value) Value {
+		addr, ok := concreteString(a[1].(Str))
+		if !ok {
+			panic(unsupported("net.ResolveUDPAddr with a symbolic address"))
+		}
+		i := strings.LastIndexByte(addr, ':')
+		if i < 0 {
+			return Tuple{Ptr{}, e.errorValue(e.strConst("address " + addr + ": missing port in address"))}
+		}
+		port, err := strconv.Atoi(addr[i+1:])
+		if err != nil || port < 0 || port > 65535 {
+			return Tuple{Ptr{}, e.errorValue(e.strConst("address " + addr + ": invalid port"))}
+		}
+		return Tuple{e.newUDPAddr(port), Iface{}}
 	})
 	reg("internal/bytealg.MakeNoZero", func(e *Exec, fn *ssa.Function, a []Value) Value {
 		n := int(e.concretize(a[0].(*sym.Term), "make-len"))
